@@ -82,6 +82,12 @@ MUTANTS = [
         ("        self.epoch = argcheck.is_int(init_epoch, name=\"init_epoch\")", "        self.epoch = max(argcheck.is_int(init_epoch, name=\"init_epoch\") - 1, 0)"),
     ]),
     # ---- C14 -------------------------------------------------------------------------
+    Mutant("c14-given-stats-ignored", "C14", DS, [
+        ("            transforms.append(MeanVarianceNormalization(mean=feat_mean, std=feat_std))", "            transforms.append(MeanVarianceNormalization())"),
+    ]),
+    Mutant("c14-spect-subset-ids-ignored", "C14", DS, [
+        ("        if subset_ids:\n            utt_ids &= subset_ids\n        if self.has_ali", "        if False:\n            utt_ids &= subset_ids\n        if self.has_ali"),
+    ]),
     Mutant("c14-drop-incomplete-inverted", "C14", DL, [
         ("        if not self.drop_incomplete:\n            for _, batch in sorted(", "        if self.drop_incomplete:\n            for _, batch in sorted("),
     ]),
